@@ -14,6 +14,7 @@
 #include "esl_dmatrix.h"
 #include "esl_quicksort.h"
 #include "esl_rand64.h"
+#include "esl_random.h"
 #include "esl_tree.h"
 #include <unistd.h>
 #include <signal.h>
@@ -514,6 +515,89 @@ static void do_op(void)
       h_out("%s", ob);
     }
     esl_tree_Destroy(T); esl_dmatrix_Destroy(D);
+  }
+  else if (!strcmp(op, "treeops")) {   /* the esl_tree.c functions that work on a finished tree, on cluster_engine's output */
+    int n = (int) h_argi("n", 0), i, j, st, st2, k; const char *dl = h_arg("d"), *p; ESL_DMATRIX *D, *M = NULL; ESL_TREE *T = NULL, *T2 = NULL;
+    int cnt = 0, lk = (int) h_argi("link", 0), lk2 = (int) h_argi("link2", 0); char errbuf[eslERRBUFSIZE];
+    if (n < 2 || !dl || lk < 0 || lk > 3 || lk2 < 0 || lk2 > 3) { h_out("bad-op"); return; }
+    for (p = dl, cnt = 1; *p; p++) if (*p == ',') cnt++;
+    if (cnt != n * (n - 1) / 2) { h_out("bad-op"); return; }
+    D = esl_dmatrix_Create(n, n);
+    p = dl;
+    for (i = 0; i < n; i++) {
+      D->mx[i][i] = 0.;
+      for (j = i + 1; j < n; j++) {
+        uint64_t u = strtoull(p, NULL, 16); double v; memcpy(&v, &u, 8);
+        D->mx[i][j] = D->mx[j][i] = v;
+        p = strchr(p, ','); if (p) p++;
+      }
+    }
+    for (k = 0; k < 2; k++) {
+      ESL_TREE **tp = k ? &T2 : &T;
+      switch (k ? lk2 : lk) {
+      case 0:  st = esl_tree_UPGMA(D, tp);           break;
+      case 1:  st = esl_tree_WPGMA(D, tp);           break;
+      case 2:  st = esl_tree_SingleLinkage(D, tp);   break;
+      default: st = esl_tree_CompleteLinkage(D, tp); break;
+      }
+      if (st != eslOK) break;
+    }
+    if (st != eslOK || !T || !T2) h_out("%s", h_status(st));
+    else {
+      o_reset();
+      st = esl_tree_VerifyUltrametric(T);                   /* sets T->taxaparent */
+      o_add("ok vu=%s", h_status(st));
+      st = esl_tree_ToDistanceMatrix(T, &M);
+      o_add(" dm=");
+      if (st == eslOK && M) { int first = 1; for (i = 0; i < n; i++) for (j = i + 1; j < n; j++) { o_add("%s%s", first ? "" : ",", h_dbits(M->mx[i][j])); first = 0; if (M->mx[i][j] != M->mx[j][i]) st = eslFAIL; } if (n < 2) o_add("-"); }
+      else o_add("%s", h_status(st));
+      o_add(" dmsym=%d", st == eslOK);
+      esl_tree_SetCladesizes(T);
+      o_add(" cs="); o_ilist(T->cladesize, n - 1);
+      o_add(" cmpself=%s", h_status(esl_tree_Compare(T, T)));
+      o_add(" cmp=%s", h_status(esl_tree_Compare(T, T2)));
+      st2 = esl_tree_RenumberNodes(T);
+      o_add(" rn=%s left=", h_status(st2)); o_ilist(T->left, n - 1);
+      o_add(" right=");  o_ilist(T->right, n - 1);
+      o_add(" parent="); o_ilist(T->parent, n - 1);
+      o_add(" ld="); o_dlist(T->ld, n - 1);
+      o_add(" rd="); o_dlist(T->rd, n - 1);
+      o_add(" tp="); o_ilist(T->taxaparent, n);
+      free(T->cladesize); T->cladesize = NULL;              /* RenumberNodes leaves cladesize[] in the old numbering */
+      esl_tree_SetCladesizes(T);
+      o_add(" valid=%d", esl_tree_Validate(T, errbuf) == eslOK);
+      o_add(" vu2=%s", h_status(esl_tree_VerifyUltrametric(T)));
+      o_add(" cmp2=%s", h_status(esl_tree_Compare(T2, T)));
+      h_out("%s", ob);
+    }
+    esl_dmatrix_Destroy(M); esl_tree_Destroy(T); esl_tree_Destroy(T2); esl_dmatrix_Destroy(D);
+  }
+  else if (!strcmp(op, "simulate")) {   /* esl_tree_Simulate from esl_randomness_Create(seed), and the tree functions on its result */
+    int n = (int) h_argi("n", 0), st; uint32_t seed = (uint32_t) h_argu("seed", 42); ESL_RANDOMNESS *r, *r2; ESL_TREE *T = NULL, *Tb = NULL;
+    char errbuf[eslERRBUFSIZE];
+    if (n < 2 || n > 4096 || seed == 0) { h_out("bad-op"); return; }
+    r = esl_randomness_Create(seed); r2 = esl_randomness_Create(seed);
+    st = esl_tree_Simulate(r, n, &T);
+    if (st == eslOK) st = esl_tree_Simulate(r2, n, &Tb);
+    if (st != eslOK || !T || !Tb) h_out("%s", h_status(st));
+    else {
+      o_reset(); o_add("ok next=%lu left=", (unsigned long) esl_random_uint32(r)); o_ilist(T->left, n - 1);
+      o_add(" right=");  o_ilist(T->right, n - 1);
+      o_add(" parent="); o_ilist(T->parent, n - 1);
+      o_add(" ld="); o_dlist(T->ld, n - 1);
+      o_add(" rd="); o_dlist(T->rd, n - 1);
+      esl_tree_SetTaxaParents(T); esl_tree_SetCladesizes(T);
+      o_add(" tp="); o_ilist(T->taxaparent, n);
+      o_add(" cs="); o_ilist(T->cladesize, n - 1);
+      o_add(" valid=%d", esl_tree_Validate(T, errbuf) == eslOK);
+      o_add(" vu=%s", h_status(esl_tree_VerifyUltrametric(T)));
+      o_add(" rn=%s rleft=", h_status(esl_tree_RenumberNodes(Tb))); o_ilist(Tb->left, n - 1);
+      o_add(" rright=");  o_ilist(Tb->right, n - 1);
+      o_add(" rparent="); o_ilist(Tb->parent, n - 1);
+      o_add(" cmp=%s", h_status(esl_tree_Compare(T, Tb)));
+      h_out("%s", ob);
+    }
+    esl_tree_Destroy(T); esl_tree_Destroy(Tb); esl_randomness_Destroy(r); esl_randomness_Destroy(r2);
   }
   else if (!strcmp(op, "deal64")) {   /* the sampler consensus_by_sample uses, by itself */
     int64_t m = h_argi("m", 0), n = h_argi("n", 0), i; int64_t *deal; ESL_RAND64 *rng;
